@@ -894,7 +894,7 @@ pub fn run(ctx: Ctx) -> ! {
     let plan: Vec<(&str, Option<u32>, Proto, usize, f64)> = if quick {
         vec![("v2-delay2", Some(2), Proto::Latest, 5, 45.0), ("v2-nodelay", None, Proto::Latest, 3, 10.0)]
     } else {
-        vec![("v2-delay2", Some(2), Proto::Latest, 64, 700.0), ("v2-nodelay", None, Proto::Latest, 64, 250.0), ("v1-delay2", Some(2), Proto::Anemone, 64, 250.0)]
+        vec![("v2-delay2", Some(2), Proto::Latest, 64, 600.0), ("v2-nodelay", None, Proto::Latest, 64, 250.0), ("v1-delay2", Some(2), Proto::Anemone, 64, 350.0)]
     };
     let mut total = BfsStats::default();
     let mut per = vec![];
